@@ -163,10 +163,10 @@ func (f *folder) fail(format string, a ...any) {
 
 func (f *folder) call(fn *ssa.Function, args []*fval, depth int) []*fval {
 	if depth > 8 {
-		f.fail("fold: call depth exceeded in %s", fn.Name())
+		f.fail("fold: call depth exceeded in %s", N(fn))
 	}
 	if len(fn.Blocks) == 0 {
-		f.fail("fold: %s has no body", fn.Name())
+		f.fail("fold: %s has no body", N(fn))
 	}
 	env := map[ssa.Value]*fval{}
 	for i, prm := range fn.Params {
@@ -183,7 +183,7 @@ func (f *folder) call(fn *ssa.Function, args []*fval, depth int) []*fval {
 		for _, in := range b.Instrs {
 			f.steps++
 			if f.steps > 200000 {
-				f.fail("fold: step limit exceeded in %s", fn.Name())
+				f.fail("fold: step limit exceeded in %s", N(fn))
 			}
 			switch x := in.(type) {
 			case *ssa.Phi:
@@ -199,7 +199,7 @@ func (f *folder) call(fn *ssa.Function, args []*fval, depth int) []*fval {
 				addr := f.val(env, x.Addr)
 				if addr.k != fPtr {
 					// store through an unknown pointer: the function is not pure enough
-					f.fail("fold: store through non-local address in %s", fn.Name())
+					f.fail("fold: store through non-local address in %s", N(fn))
 				}
 				*addr.cell = *copyVal(f.val(env, x.Val))
 			case *ssa.FieldAddr:
@@ -215,7 +215,7 @@ func (f *folder) call(fn *ssa.Function, args []*fval, depth int) []*fval {
 				if base.k == fPtr && base.cell.k == fArray && idx.k == fInt {
 					el, ok := base.cell.fields[int(idx.i)]
 					if !ok {
-						f.fail("fold: index %d out of range in %s", idx.i, fn.Name())
+						f.fail("fold: index %d out of range in %s", idx.i, N(fn))
 					}
 					env[x] = &fval{k: fPtr, cell: el, typ: x.Type()}
 				} else {
@@ -279,7 +279,7 @@ func (f *folder) call(fn *ssa.Function, args []*fval, depth int) []*fval {
 			case *ssa.If:
 				c := f.val(env, x.Cond)
 				if c.k != fBool {
-					f.fail("fold: branch on a non-constant condition in %s at %s", fn.Name(), f.p.Pos(instrPos(x)))
+					f.fail("fold: branch on a non-constant condition in %s at %s", N(fn), f.p.Pos(instrPos(x)))
 				}
 				if c.b {
 					next = b.Succs[0]
@@ -295,15 +295,15 @@ func (f *folder) call(fn *ssa.Function, args []*fval, depth int) []*fval {
 				}
 				return out
 			case *ssa.Panic:
-				f.fail("fold: panic reached in %s", fn.Name())
+				f.fail("fold: panic reached in %s", N(fn))
 			case *ssa.RunDefers, *ssa.Defer:
-				f.fail("fold: defer in %s", fn.Name())
+				f.fail("fold: defer in %s", N(fn))
 			default:
-				f.fail("fold: unsupported instruction %T in %s", in, fn.Name())
+				f.fail("fold: unsupported instruction %T in %s", in, N(fn))
 			}
 		}
 		if next == nil {
-			f.fail("fold: fell off block in %s", fn.Name())
+			f.fail("fold: fell off block in %s", N(fn))
 		}
 		prev, b = b, next
 	}
@@ -460,7 +460,7 @@ func (f *folder) binop(op token.Token, a, b *fval, t types.Type) *fval {
 func (f *folder) doCall(env map[ssa.Value]*fval, x *ssa.Call, depth int) *fval {
 	cc := x.Common()
 	if b, ok := cc.Value.(*ssa.Builtin); ok {
-		if b.Name() == "len" && len(cc.Args) == 1 {
+		if N(b) == "len" && len(cc.Args) == 1 {
 			v := f.val(env, cc.Args[0])
 			if v.k == fStr {
 				return &fval{k: fInt, i: int64(len(v.s)), typ: x.Type()}
